@@ -37,6 +37,9 @@ func c17RandomItem(t *simrt.Tape, i int) *c17Item {
 	return it
 }
 
+// c17Any as an expected metadata value: the key may hold anything or be absent.
+const c17Any = "\x00any"
+
 type c17Dest struct {
 	pub     *ScriptedPublisher
 	callsOf map[*Delivery][]*PubCall
@@ -75,14 +78,15 @@ func c17Check(r *Run, comp string, d *Delivery, it *c17Item, dest *c17Dest, want
 	if d.Acked() && accepted == 0 {
 		r.Fail("C17.R1", "a consumed message was acked although the destination never accepted it", "%s: %d destination calls, none accepted", what, len(calls))
 	}
-	if d.Nacked() && accepted > 0 && len(calls) == accepted {
+	// (while the component is being stopped a Nack after an accepted relay is a legitimate duplicate-to-be)
+	if d.Nacked() && accepted > 0 && len(calls) == accepted && r.Params["stopped_early"] == 0 {
 		r.Fail("C17.R2", "a consumed message was nacked although the destination accepted it", "%s", what)
 	}
 	if len(calls) > 0 && calls[len(calls)-1].Err != nil && d.Acked() {
 		r.Fail("C17.R2", "a consumed message was acked although the destination failed", "%s", what)
 	}
-	if len(calls) > 1 {
-		r.Fail("C17.R4", "one consumed delivery was relayed more than once", "%s: %d calls", what, len(calls))
+	if accepted > 1 {
+		r.Fail("C17.R4", "one consumed delivery was relayed more than once", "%s: %d calls, %d accepted", what, len(calls), accepted)
 	}
 	for _, c := range calls {
 		if c.Topic != wantTopic {
@@ -96,7 +100,19 @@ func c17Check(r *Run, comp string, d *Delivery, it *c17Item, dest *c17Dest, want
 		if m.UUID != it.uuid || string(m.Payload) != it.payload {
 			r.Fail("C17.R1", "the relayed message's UUID or payload differs from the consumed one", "%s: %q %q, expected %q %q", what, m.UUID, m.Payload, it.uuid, it.payload)
 		}
-		if !sameMeta(wantMeta, m.Metadata) {
+		got := message.Metadata{}
+		wantCmp := map[string]string{}
+		for k, v := range m.Metadata {
+			got[k] = v
+		}
+		for k, v := range wantMeta {
+			if v == c17Any {
+				delete(got, k)
+				continue
+			}
+			wantCmp[k] = v
+		}
+		if !sameMeta(wantCmp, got) {
 			r.Fail("C17.R1", "the relayed message's metadata differs from the consumed one", "%s: %v, expected %v", what, m.Metadata, wantMeta)
 		}
 	}
@@ -280,7 +296,7 @@ func c17FanIn(r *Run) {
 	r.Describe("FanIn %v -> target: %d messages, destination faults %v", topics, len(items), dest.pub.FailAt)
 	dest.pub.Hook = func(c *PubCall) {
 		for _, m := range c.Msgs {
-			d := src.ByMsg[m]
+			d := src.DeliveryFor(m)
 			if d == nil {
 				r.Fail("C17.R4", "the destination received a message that was not consumed", "fan-in: %q", m.UUID)
 				continue
@@ -350,7 +366,7 @@ func c17Requeuer(r *Run) {
 	}(), dest.pub.FailAt)
 	dest.pub.Hook = func(c *PubCall) {
 		for _, m := range c.Msgs {
-			d := src.ByMsg[m]
+			d := src.DeliveryFor(m)
 			if d == nil {
 				r.Fail("C17.R4", "the destination received a message that was not consumed", "requeuer: %q", m.UUID)
 				continue
@@ -378,11 +394,17 @@ func c17Requeuer(r *Run) {
 			it := items[d.Msg.UUID]
 			want := copyMeta(it.meta)
 			want["x-attempt"] = fmt.Sprint(d.Attempt)
+			// a counter that is a non-negative number (or absent: zero) goes up by exactly one; what becomes of anything else
+			// is not specified
 			old, perr := strconv.Atoi(it.meta[requeuer.RetriesKey])
-			if perr != nil {
-				old = 0
+			switch {
+			case it.meta[requeuer.RetriesKey] == "":
+				want[requeuer.RetriesKey] = "1"
+			case perr != nil || old < 0:
+				want[requeuer.RetriesKey] = c17Any
+			default:
+				want[requeuer.RetriesKey] = strconv.Itoa(old + 1)
 			}
-			want[requeuer.RetriesKey] = strconv.Itoa(old + 1)
 			c17Check(r, "Requeuer", d, it, dest, "requeue."+it.meta["target"], want, false)
 		}
 	})
